@@ -1,101 +1,272 @@
-// Package xatomic replaces "sync/atomic" in rewritten code: every atomic
-// operation is a scheduling point followed by a plain access.
+// Package xatomic replaces "sync/atomic" in rewritten code: every atomic operation is a pair of scheduling points
+// around a plain access, ordered after every earlier operation on the same variable (mcrt.AtomicEnter/AtomicLeave).
+// Nothing here is generic code that touches shared memory: generic functions are compiled in the importing
+// (race-instrumented) package, so Pointer[T] keeps its value behind non-generic accessors.
 package xatomic
 
-import "mcrt"
+import (
+	"mcrt"
+	"unsafe"
+)
 
-func AddInt32(p *int32, d int32) int32     { mcrt.Yield(); *p += d; return *p }
-func AddInt64(p *int64, d int64) int64     { mcrt.Yield(); *p += d; return *p }
-func AddUint32(p *uint32, d uint32) uint32 { mcrt.Yield(); *p += d; return *p }
-func AddUint64(p *uint64, d uint64) uint64 { mcrt.Yield(); *p += d; return *p }
-func LoadInt32(p *int32) int32             { mcrt.Yield(); return *p }
-func LoadInt64(p *int64) int64             { mcrt.Yield(); return *p }
-func LoadUint32(p *uint32) uint32          { mcrt.Yield(); return *p }
-func LoadUint64(p *uint64) uint64          { mcrt.Yield(); return *p }
-func StoreInt32(p *int32, v int32)         { mcrt.Yield(); *p = v }
-func StoreInt64(p *int64, v int64)         { mcrt.Yield(); *p = v }
-func StoreUint32(p *uint32, v uint32)      { mcrt.Yield(); *p = v }
-func StoreUint64(p *uint64, v uint64)      { mcrt.Yield(); *p = v }
-func CompareAndSwapInt32(p *int32, o, n int32) bool {
-	mcrt.Yield()
-	if *p == o {
-		*p = n
-		return true
-	}
-	return false
+//go:noinline
+func enter(p unsafe.Pointer) *mcrt.Mutex { return mcrt.AtomicEnter(p) }
+
+//go:noinline
+func leave(m *mcrt.Mutex) { mcrt.AtomicLeave(m) }
+
+func AddInt32(p *int32, d int32) (r int32) {
+	m := enter(unsafe.Pointer(p))
+	*p += d
+	r = *p
+	leave(m)
+	return
 }
-func CompareAndSwapInt64(p *int64, o, n int64) bool {
-	mcrt.Yield()
-	if *p == o {
-		*p = n
-		return true
-	}
-	return false
+func AddInt64(p *int64, d int64) (r int64) {
+	m := enter(unsafe.Pointer(p))
+	*p += d
+	r = *p
+	leave(m)
+	return
 }
-func CompareAndSwapUint32(p *uint32, o, n uint32) bool {
-	mcrt.Yield()
+func AddUint32(p *uint32, d uint32) (r uint32) {
+	m := enter(unsafe.Pointer(p))
+	*p += d
+	r = *p
+	leave(m)
+	return
+}
+func AddUint64(p *uint64, d uint64) (r uint64) {
+	m := enter(unsafe.Pointer(p))
+	*p += d
+	r = *p
+	leave(m)
+	return
+}
+func AddUintptr(p *uintptr, d uintptr) (r uintptr) {
+	m := enter(unsafe.Pointer(p))
+	*p += d
+	r = *p
+	leave(m)
+	return
+}
+func LoadInt32(p *int32) (r int32)       { m := enter(unsafe.Pointer(p)); r = *p; leave(m); return }
+func LoadInt64(p *int64) (r int64)       { m := enter(unsafe.Pointer(p)); r = *p; leave(m); return }
+func LoadUint32(p *uint32) (r uint32)    { m := enter(unsafe.Pointer(p)); r = *p; leave(m); return }
+func LoadUint64(p *uint64) (r uint64)    { m := enter(unsafe.Pointer(p)); r = *p; leave(m); return }
+func LoadUintptr(p *uintptr) (r uintptr) { m := enter(unsafe.Pointer(p)); r = *p; leave(m); return }
+func StoreInt32(p *int32, v int32)       { m := enter(unsafe.Pointer(p)); *p = v; leave(m) }
+func StoreInt64(p *int64, v int64)       { m := enter(unsafe.Pointer(p)); *p = v; leave(m) }
+func StoreUint32(p *uint32, v uint32)    { m := enter(unsafe.Pointer(p)); *p = v; leave(m) }
+func StoreUint64(p *uint64, v uint64)    { m := enter(unsafe.Pointer(p)); *p = v; leave(m) }
+func StoreUintptr(p *uintptr, v uintptr) { m := enter(unsafe.Pointer(p)); *p = v; leave(m) }
+func SwapInt32(p *int32, v int32) (o int32) {
+	m := enter(unsafe.Pointer(p))
+	o = *p
+	*p = v
+	leave(m)
+	return
+}
+func SwapInt64(p *int64, v int64) (o int64) {
+	m := enter(unsafe.Pointer(p))
+	o = *p
+	*p = v
+	leave(m)
+	return
+}
+func SwapUint32(p *uint32, v uint32) (o uint32) {
+	m := enter(unsafe.Pointer(p))
+	o = *p
+	*p = v
+	leave(m)
+	return
+}
+func SwapUint64(p *uint64, v uint64) (o uint64) {
+	m := enter(unsafe.Pointer(p))
+	o = *p
+	*p = v
+	leave(m)
+	return
+}
+func CompareAndSwapInt32(p *int32, o, n int32) (ok bool) {
+	m := enter(unsafe.Pointer(p))
 	if *p == o {
 		*p = n
-		return true
+		ok = true
 	}
-	return false
+	leave(m)
+	return
+}
+func CompareAndSwapInt64(p *int64, o, n int64) (ok bool) {
+	m := enter(unsafe.Pointer(p))
+	if *p == o {
+		*p = n
+		ok = true
+	}
+	leave(m)
+	return
+}
+func CompareAndSwapUint32(p *uint32, o, n uint32) (ok bool) {
+	m := enter(unsafe.Pointer(p))
+	if *p == o {
+		*p = n
+		ok = true
+	}
+	leave(m)
+	return
+}
+func CompareAndSwapUint64(p *uint64, o, n uint64) (ok bool) {
+	m := enter(unsafe.Pointer(p))
+	if *p == o {
+		*p = n
+		ok = true
+	}
+	leave(m)
+	return
 }
 
 type Bool struct{ v bool }
 
-func (b *Bool) Load() bool   { mcrt.Yield(); return b.v }
-func (b *Bool) Store(v bool) { mcrt.Yield(); b.v = v }
-func (b *Bool) CompareAndSwap(o, n bool) bool {
-	mcrt.Yield()
+func (b *Bool) Load() (r bool) { m := enter(unsafe.Pointer(b)); r = b.v; leave(m); return }
+func (b *Bool) Store(v bool)   { m := enter(unsafe.Pointer(b)); b.v = v; leave(m) }
+func (b *Bool) Swap(n bool) (o bool) {
+	m := enter(unsafe.Pointer(b))
+	o = b.v
+	b.v = n
+	leave(m)
+	return
+}
+func (b *Bool) CompareAndSwap(o, n bool) (ok bool) {
+	m := enter(unsafe.Pointer(b))
 	if b.v == o {
 		b.v = n
-		return true
+		ok = true
 	}
-	return false
+	leave(m)
+	return
 }
-func (b *Bool) Swap(n bool) bool { mcrt.Yield(); o := b.v; b.v = n; return o }
 
 type Int32 struct{ v int32 }
 
-func (x *Int32) Load() int32       { mcrt.Yield(); return x.v }
-func (x *Int32) Store(v int32)     { mcrt.Yield(); x.v = v }
-func (x *Int32) Add(d int32) int32 { mcrt.Yield(); x.v += d; return x.v }
-func (x *Int32) CompareAndSwap(o, n int32) bool {
-	mcrt.Yield()
-	if x.v == o {
-		x.v = n
-		return true
-	}
-	return false
-}
+func (x *Int32) Load() int32                    { return LoadInt32(&x.v) }
+func (x *Int32) Store(v int32)                  { StoreInt32(&x.v, v) }
+func (x *Int32) Add(d int32) int32              { return AddInt32(&x.v, d) }
+func (x *Int32) Swap(v int32) int32             { return SwapInt32(&x.v, v) }
+func (x *Int32) CompareAndSwap(o, n int32) bool { return CompareAndSwapInt32(&x.v, o, n) }
 
 type Int64 struct{ v int64 }
 
-func (x *Int64) Load() int64       { mcrt.Yield(); return x.v }
-func (x *Int64) Store(v int64)     { mcrt.Yield(); x.v = v }
-func (x *Int64) Add(d int64) int64 { mcrt.Yield(); x.v += d; return x.v }
-func (x *Int64) CompareAndSwap(o, n int64) bool {
-	mcrt.Yield()
-	if x.v == o {
-		x.v = n
-		return true
-	}
-	return false
-}
+func (x *Int64) Load() int64                    { return LoadInt64(&x.v) }
+func (x *Int64) Store(v int64)                  { StoreInt64(&x.v, v) }
+func (x *Int64) Add(d int64) int64              { return AddInt64(&x.v, d) }
+func (x *Int64) Swap(v int64) int64             { return SwapInt64(&x.v, v) }
+func (x *Int64) CompareAndSwap(o, n int64) bool { return CompareAndSwapInt64(&x.v, o, n) }
 
 type Uint32 struct{ v uint32 }
 
-func (x *Uint32) Load() uint32        { mcrt.Yield(); return x.v }
-func (x *Uint32) Store(v uint32)      { mcrt.Yield(); x.v = v }
-func (x *Uint32) Add(d uint32) uint32 { mcrt.Yield(); x.v += d; return x.v }
+func (x *Uint32) Load() uint32                    { return LoadUint32(&x.v) }
+func (x *Uint32) Store(v uint32)                  { StoreUint32(&x.v, v) }
+func (x *Uint32) Add(d uint32) uint32             { return AddUint32(&x.v, d) }
+func (x *Uint32) Swap(v uint32) uint32            { return SwapUint32(&x.v, v) }
+func (x *Uint32) CompareAndSwap(o, n uint32) bool { return CompareAndSwapUint32(&x.v, o, n) }
 
 type Uint64 struct{ v uint64 }
 
-func (x *Uint64) Load() uint64        { mcrt.Yield(); return x.v }
-func (x *Uint64) Store(v uint64)      { mcrt.Yield(); x.v = v }
-func (x *Uint64) Add(d uint64) uint64 { mcrt.Yield(); x.v += d; return x.v }
+func (x *Uint64) Load() uint64                    { return LoadUint64(&x.v) }
+func (x *Uint64) Store(v uint64)                  { StoreUint64(&x.v, v) }
+func (x *Uint64) Add(d uint64) uint64             { return AddUint64(&x.v, d) }
+func (x *Uint64) Swap(v uint64) uint64            { return SwapUint64(&x.v, v) }
+func (x *Uint64) CompareAndSwap(o, n uint64) bool { return CompareAndSwapUint64(&x.v, o, n) }
 
+type Uintptr struct{ v uintptr }
+
+func (x *Uintptr) Load() uintptr         { return LoadUintptr(&x.v) }
+func (x *Uintptr) Store(v uintptr)       { StoreUintptr(&x.v, v) }
+func (x *Uintptr) Add(d uintptr) uintptr { return AddUintptr(&x.v, d) }
+
+// Value mirrors atomic.Value (the consistent-type panics are not modelled).
 type Value struct{ v interface{} }
 
-func (x *Value) Load() interface{}   { mcrt.Yield(); return x.v }
-func (x *Value) Store(v interface{}) { mcrt.Yield(); x.v = v }
+//go:noinline
+func (x *Value) Load() (r interface{}) { m := enter(unsafe.Pointer(x)); r = x.v; leave(m); return }
+
+//go:noinline
+func (x *Value) Store(v interface{}) {
+	if v == nil {
+		panic("sync/atomic: store of nil value into Value")
+	}
+	m := enter(unsafe.Pointer(x))
+	x.v = v
+	leave(m)
+}
+
+//go:noinline
+func (x *Value) Swap(n interface{}) (o interface{}) {
+	m := enter(unsafe.Pointer(x))
+	o = x.v
+	x.v = n
+	leave(m)
+	return
+}
+
+//go:noinline
+func (x *Value) CompareAndSwap(o, n interface{}) (ok bool) {
+	m := enter(unsafe.Pointer(x))
+	if x.v == o {
+		x.v = n
+		ok = true
+	}
+	leave(m)
+	return
+}
+
+// ptrCell is the non-generic storage of Pointer[T].
+type ptrCell struct{ p unsafe.Pointer }
+
+//go:noinline
+func (c *ptrCell) load() (r unsafe.Pointer) { m := enter(unsafe.Pointer(c)); r = c.p; leave(m); return }
+
+//go:noinline
+func (c *ptrCell) store(v unsafe.Pointer) { m := enter(unsafe.Pointer(c)); c.p = v; leave(m) }
+
+//go:noinline
+func (c *ptrCell) swap(v unsafe.Pointer) (o unsafe.Pointer) {
+	m := enter(unsafe.Pointer(c))
+	o = c.p
+	c.p = v
+	leave(m)
+	return
+}
+
+//go:noinline
+func (c *ptrCell) cas(o, n unsafe.Pointer) (ok bool) {
+	m := enter(unsafe.Pointer(c))
+	if c.p == o {
+		c.p = n
+		ok = true
+	}
+	leave(m)
+	return
+}
+
+func LoadPointer(p *unsafe.Pointer) unsafe.Pointer     { return (*ptrCell)(unsafe.Pointer(p)).load() }
+func StorePointer(p *unsafe.Pointer, v unsafe.Pointer) { (*ptrCell)(unsafe.Pointer(p)).store(v) }
+func SwapPointer(p *unsafe.Pointer, v unsafe.Pointer) unsafe.Pointer {
+	return (*ptrCell)(unsafe.Pointer(p)).swap(v)
+}
+func CompareAndSwapPointer(p *unsafe.Pointer, o, n unsafe.Pointer) bool {
+	return (*ptrCell)(unsafe.Pointer(p)).cas(o, n)
+}
+
+// Pointer mirrors atomic.Pointer[T].
+type Pointer[T any] struct {
+	_ [0]*T
+	c ptrCell
+}
+
+func (x *Pointer[T]) Load() *T     { return (*T)(x.c.load()) }
+func (x *Pointer[T]) Store(v *T)   { x.c.store(unsafe.Pointer(v)) }
+func (x *Pointer[T]) Swap(v *T) *T { return (*T)(x.c.swap(unsafe.Pointer(v))) }
+func (x *Pointer[T]) CompareAndSwap(o, n *T) bool {
+	return x.c.cas(unsafe.Pointer(o), unsafe.Pointer(n))
+}
